@@ -189,6 +189,79 @@ pub fn check_doc_path_with(doc: &Document, table: bool, reader: Reader, existing
     })
 }
 
+// ---------------------------------------------------------------------------------------------
+// sequences of saves and edits on ONE Document value (state that survives a save: trailer, max_id)
+
+pub const RESAVE_OPS: [&str; 6] = ["save_table", "save_stream", "renumber", "add_object", "delete_last", "renumber_with_3"];
+
+/// Apply the op sequence to one Document; every save must be strictly valid and recover the
+/// document as it is at that moment.
+pub fn run_resave_with(base: &Document, ops: &[usize], reader: Reader) -> Result<u64, String> {
+    let mut doc = base.clone();
+    let mut saves = 0;
+    for (step, op) in ops.iter().enumerate() {
+        match RESAVE_OPS[*op] {
+            "save_table" | "save_stream" => {
+                let table = RESAVE_OPS[*op] == "save_table";
+                util::set_xref(&mut doc, table);
+                let snapshot = doc.clone();
+                let mut out = vec![];
+                match util::guard(|| doc.save_to(&mut out)) {
+                    Ok(Ok(())) => {}
+                    Ok(Err(e)) => return Err(format!("step {}: save error {}", step, e)),
+                    Err(p) => return Err(p),
+                }
+                saves += 1;
+                let view = reader(&out, &snapshot).map_err(|e| format!("step {} ({}): {}", step, RESAVE_OPS[*op], e))?;
+                if let Some(m) = cmp::diff_objects(&snapshot.objects, &view.objects) {
+                    return Err(format!("step {} ({}): {}", step, RESAVE_OPS[*op], m));
+                }
+                let mut want = snapshot.trailer.clone();
+                for k in cmp::XREF_BOOKKEEPING {
+                    want.remove(k);
+                }
+                if let Some(m) = cmp::diff_trailer(&want, &view.trailer) {
+                    return Err(format!("step {} ({}): {}", step, RESAVE_OPS[*op], m));
+                }
+            }
+            "renumber" => doc.renumber_objects(),
+            "renumber_with_3" => doc.renumber_objects_with(3),
+            "add_object" => {
+                doc.add_object(Object::Array(vec![Object::Integer(step as i64), Object::string_literal("added")]));
+            }
+            _ => {
+                // delete the object with the largest number that is not referenced by the trailer
+                let root = doc.trailer.get(b"Root").and_then(Object::as_reference).ok();
+                let victim = doc.objects.keys().rev().find(|id| Some(**id) != root).cloned();
+                if let Some(v) = victim {
+                    doc.objects.remove(&v);
+                }
+            }
+        }
+    }
+    Ok(saves)
+}
+
+
+/// All op sequences of length 1..=depth that end in a save (prefixes are covered by shorter ones).
+pub fn resave_sequences(depth: usize) -> Vec<Vec<usize>> {
+    let mut seqs: Vec<Vec<usize>> = vec![];
+    let mut level: Vec<Vec<usize>> = vec![vec![]];
+    for _ in 0..depth {
+        let mut next = vec![];
+        for sq in &level {
+            for op in 0..RESAVE_OPS.len() {
+                let mut s2 = sq.clone();
+                s2.push(op);
+                next.push(s2);
+            }
+        }
+        seqs.extend(next.iter().filter(|s| *s.last().unwrap() <= 1).cloned());
+        level = next;
+    }
+    seqs
+}
+
 pub fn dict(entries: Vec<(&[u8], Object)>) -> Dictionary {
     let mut d = Dictionary::new();
     for (k, v) in entries {
